@@ -76,7 +76,7 @@ theorem firstLe_lt (u : α) : ∀ (ps : List α) (i j : Nat), firstLe u ps i = s
   | [], _, _, h => by simp [firstLe] at h
   | p :: ps, i, j, h => by
     unfold firstLe at h
-    by_cases hp : u ≤ p
+    by_cases hp : u < p
     · simp only [hp, if_true, Option.some.injEq] at h
       subst h
       simp
